@@ -182,22 +182,40 @@ BOUNDARY = [
 
 # ------------------------------------------------------------------ running
 
-def run_parallel(exe, lines, jobs=JOBS):
-    if len(lines) < 400:
-        return vlib.run_lines(exe, lines, timeout=3000)
-    n = (len(lines) + jobs - 1) // jobs
-    chunks = [lines[i:i + n] for i in range(0, len(lines), n)]
-    with ThreadPoolExecutor(max_workers=jobs) as ex:
-        rs = list(ex.map(lambda c: vlib.run_lines(exe, c, timeout=3000), chunks))
+def run_chunk(exe, lines, env=None):
+    """run all lines; if the process dies, mark the line it died on and carry on after it"""
     out = []
-    rc = 0
-    for c, r in zip(chunks, rs):
-        o = r[1]
-        if r[0] != 0 or len(o) != len(c):
-            rc = r[0] or 1
-            o = (o + ['<missing>'] * len(c))[:len(c)]
-        out += o
-    return rc, out, ''.join(r[2] for r in rs)
+    start = 0
+    crashes = 0
+    while start < len(lines):
+        rc, o, e = vlib.run_lines(exe, lines[start:], timeout=3000, env=env)
+        if o and o[-1] == '' and len(o) > len(lines) - start:
+            o = o[:-1]
+        if rc == 0 and len(o) == len(lines) - start:
+            out += o
+            break
+        k = min(len(o), len(lines) - start - 1)
+        out += o[:k]
+        out.append('CRASH rc=%d %s' % (rc, e[-200:].replace('\n', ' ')))
+        start += k + 1
+        crashes += 1
+        if crashes > 20:
+            out += ['CRASH (not run: too many crashes)'] * (len(lines) - start)
+            break
+    return out
+
+
+def run_parallel(exe, lines, jobs=JOBS, env=None):
+    """-> (rc, output lines, '') ; bounded chunks so that one process never runs too long"""
+    size = 20000
+    chunks = [lines[i:i + size] for i in range(0, len(lines), size)]
+    if len(chunks) <= 1:
+        outs = [run_chunk(exe, c, env) for c in chunks]
+    else:
+        with ThreadPoolExecutor(max_workers=jobs) as ex:
+            outs = list(ex.map(lambda c: run_chunk(exe, c, env), chunks))
+    out = [l for o in outs for l in o]
+    return (0 if len(out) == len(lines) else 1), out, ''
 
 
 def impl_line(impl, c, env=None):
@@ -262,12 +280,7 @@ def first_diff(a, b):
 
 
 def correspond(impl, model, cases, env=None):
-    rc, o1, e1 = run_parallel(impl, cases) if env is None else vlib.run_lines(impl, cases, timeout=3000, env=env)
-    if len(o1) != len(cases):
-        o1 = (o1 + ['<missing>'] * len(cases))[:len(cases)]
-    for i, o in enumerate(o1):
-        if o == '<missing>':
-            o1[i] = impl_line(impl, cases[i], env)
+    rc, o1, e1 = run_parallel(impl, cases, env=env)
     o2 = model_lines(model, cases, o1)
     bad = []
     for c, a, b in zip(cases, o1, o2):
